@@ -338,6 +338,26 @@ def run(task, ctx):
                 'class_id': class_id, 'weight': weight})
             check_frame(ctx, data, 'header class=%d weight=%d extra=%d' % (
                 class_id, weight, extra))
+        # properties a peer flags as present with an EMPTY value (what other
+        # clients send for reply_to='' or an empty headers table): present
+        # and empty is not absent
+        strs = [n for n, t, _b in spec_table.PROPERTIES if t == 'shortstr']
+        empties = [{n: Raw(b'\x00')} for n in strs]
+        empties += [dict(full, **{n: Raw(b'\x00')}) for n in strs]
+        empties += [{n: Raw(b'\x00') for n in strs},
+                    {'headers': Raw(b'\x00\x00\x00\x00')},
+                    dict(full, headers=Raw(b'\x00\x00\x00\x00')),
+                    {'headers': Raw(b'\x00\x00\x00\x00'),
+                     'content_type': Raw(b'\x00'), 'app_id': 'a'},
+                    {'priority': 0, 'delivery_mode': Raw(b'\x00'),
+                     'timestamp': Raw(bytes(8))}]
+        for props in empties:
+            data, _f = refcodec.enc_header_frame(1, props, 3)
+            ctx.case(('f', data), True)
+            check_frame(ctx, data, 'header with properties present but '
+                        'empty: ' + ', '.join(sorted(
+                            k for k, v in props.items()
+                            if isinstance(v, Raw))))
         # every body size of the alphabet (unsigned 64 bit on the wire)
         for size in A.BODY_SIZE + [2**63 + 1, 2**64 - 2, 2**32 + 1]:
             for props in ({}, {'priority': 1}):
